@@ -1017,10 +1017,13 @@ class MyPyAstVisitor:
             unanalyzed_type_name = unanalyzed_type.name
             if unanalyzed_type_name == "Final":
                 # Final type
-                types = [self.mypy_type_to_abstract_type(arg) for arg in getattr(unanalyzed_type, "args", [])]
-                if len(types) == 1:
-                    return sds_types.FinalType(type_=types[0])
-                elif len(types) == 0:
+                unanalyzed_args = getattr(unanalyzed_type, "args", [])
+                if len(unanalyzed_args) == 1:
+                    # Mypy has removed the "Final", the analyzed type is the type of the argument
+                    return sds_types.FinalType(type_=self.mypy_type_to_abstract_type(mypy_type, unanalyzed_args[0]))
+
+                types = [self.mypy_type_to_abstract_type(arg) for arg in unanalyzed_args]
+                if len(types) == 0:
                     # A bare "Final" has the type that was inferred for the assigned value
                     return sds_types.FinalType(type_=self.mypy_type_to_abstract_type(mypy_type))
                 return sds_types.FinalType(type_=sds_types.UnionType(types=types))
